@@ -5,14 +5,11 @@ package mcp
 import (
 	"context"
 	"fmt"
-	"io"
-	"log/slog"
 	"strings"
 
 	vs "github.com/modelcontextprotocol/go-sdk/internal/vsched"
 )
 
-var quietLogger = slog.New(slog.NewTextHandler(io.Discard, nil))
 
 type e1Pair struct {
 	s  *Server
